@@ -10,6 +10,8 @@
 //!   6 preallocated    every sequence of the function is created dangling up front in a random order (so arena
 //!                     ids say nothing about nesting), then filled and attached; locals are allocated in a
 //!                     random order too (parameters are not the lowest local ids)
+//!   7 positional closures  items inserted in a random order with `block_at` / `loop_at` / `if_else_at` and the
+//!                     named `*_at` instruction methods; the function gets a name through the builder
 
 use crate::util::guarded;
 use std::collections::HashMap;
@@ -294,6 +296,72 @@ fn build_closures(b: &mut InstrSeqBuilder, nodes: &[TNode], env: &Env, labels: &
     }
 }
 
+/// Order 7: random-order positional insertion through the closure-taking `*_at` methods.
+fn build_positional_closures(b: &mut InstrSeqBuilder, nodes: &[TNode], env: &Env, labels: &mut HashMap<usize, InstrSeqId>, rng: &mut Rng) {
+    let mut idxs: Vec<usize> = (0..nodes.len()).collect();
+    rng.shuffle(&mut idxs);
+    let mut placed: Vec<usize> = Vec::new();
+    for i in idxs {
+        let pos = placed.iter().filter(|p| **p < i).count();
+        match &nodes[i] {
+            TNode::Op(op) => {
+                match op {
+                    TOp::I32Const(v) => b.const_at(pos, Value::I32(*v)),
+                    TOp::I64Const(v) => b.const_at(pos, Value::I64(*v)),
+                    TOp::LocalGet(l) => b.local_get_at(pos, env.locals[*l]),
+                    TOp::LocalSet(l) => b.local_set_at(pos, env.locals[*l]),
+                    TOp::LocalTee(l) => b.local_tee_at(pos, env.locals[*l]),
+                    TOp::GlobalGet(g) => b.global_get_at(pos, env.globals[*g]),
+                    TOp::GlobalSet(g) => b.global_set_at(pos, env.globals[*g]),
+                    TOp::Bin(n) => b.binop_at(pos, binop(n)),
+                    TOp::Un(n) => b.unop_at(pos, unop(n)),
+                    TOp::Drop => b.drop_at(pos),
+                    TOp::Br(id) => b.br_at(pos, labels[id]),
+                    TOp::BrIf(id) => b.br_if_at(pos, labels[id]),
+                    TOp::Return => b.return_at(pos),
+                    TOp::Unreachable => b.unreachable_at(pos),
+                    TOp::CallHelper => b.call_at(pos, env.helper),
+                    other => b.instr_at(pos, to_instr(other, env, labels)),
+                };
+            }
+            TNode::Block { id, body, .. } => {
+                let (lab, r): (*mut HashMap<usize, InstrSeqId>, *mut Rng) = (labels, rng);
+                b.block_at(pos, env.seq_tys[id], |inner| {
+                    let (labels, rng) = unsafe { (&mut *lab, &mut *r) };
+                    labels.insert(*id, inner.id());
+                    build_positional_closures(inner, body, env, labels, rng);
+                });
+            }
+            TNode::Loop { id, body, .. } => {
+                let (lab, r): (*mut HashMap<usize, InstrSeqId>, *mut Rng) = (labels, rng);
+                b.loop_at(pos, env.seq_tys[id], |inner| {
+                    let (labels, rng) = unsafe { (&mut *lab, &mut *r) };
+                    labels.insert(*id, inner.id());
+                    build_positional_closures(inner, body, env, labels, rng);
+                });
+            }
+            TNode::If { id, then_, else_, .. } => {
+                let (lab, r): (*mut HashMap<usize, InstrSeqId>, *mut Rng) = (labels, rng);
+                b.if_else_at(
+                    pos,
+                    env.seq_tys[id],
+                    |inner| {
+                        let (labels, rng) = unsafe { (&mut *lab, &mut *r) };
+                        labels.insert(*id, inner.id());
+                        build_positional_closures(inner, then_, env, labels, rng);
+                    },
+                    |inner| {
+                        let (labels, rng) = unsafe { (&mut *lab, &mut *r) };
+                        labels.insert(*id, inner.id());
+                        build_positional_closures(inner, else_, env, labels, rng);
+                    },
+                );
+            }
+        }
+        placed.push(i);
+    }
+}
+
 fn build_module(t: &TFunc, order: u32, seed: u64) -> Vec<u8> {
     let mut cfg = ModuleConfig::new();
     cfg.generate_producers_section(false);
@@ -371,6 +439,10 @@ fn build_module(t: &TFunc, order: u32, seed: u64) -> Vec<u8> {
     } else if order == 5 {
         let mut b = fb.func_body();
         build_closures(&mut b, &t.body, &env, &mut labels);
+    } else if order == 7 {
+        fb.name("wv_built".to_string());
+        let mut b = fb.func_body();
+        build_positional_closures(&mut b, &t.body, &env, &mut labels, &mut rng);
     } else {
         build_seq(&mut fb, body_id, &t.body, &env, &mut labels, order, &mut rng);
     }
@@ -391,7 +463,7 @@ pub fn run(input: &[u8], rec: &mut Rec) {
     };
     let t = tree::tree_for(seed, index);
     rec.push_n("nodes", tree::count_nodes(&t.body) as u64);
-    for order in 1..=6u32 {
+    for order in 1..=7u32 {
         match guarded(|| build_module(&t, order, seed ^ index)) {
             Ok(out) => rec.push_b(&format!("out.{}", order), &out),
             Err(p) => rec.push_s(&format!("panic.{}", order), &p),
